@@ -40,15 +40,21 @@ def build_host(workdir, stack, tag):
             target = 'fn%d' % (i - 1) if prev['cls'] == 'none' else 'C%d().fn%d' % (i - 1, i - 1)
             callee = target if prev['app'] == f['app'] else 'PEER.' + target
         ind = ''
-        if f['cls'] == 'C':
+        if f['cls'] != 'none':
             out.append('class C%d:' % i)
             ind = '    '
+            if f['cls'] == 'E':         # falsy: an empty container-like object
+                out.append(ind + 'def __len__(self):')
+                out.append(ind + '    return 0')
+            elif f['cls'] == 'H':       # its truth value cannot be taken (array-likes)
+                out.append(ind + 'def __bool__(self):')
+                out.append(ind + "    raise ValueError('the truth value of this object is ambiguous')")
             out.append(ind + 'def fn%d(self):' % i)
         else:
             out.append('def fn%d():' % i)
         body = ind + '    '
         out.append(body + 'b = %d' % (i + 100))
-        local_names = ['b'] + (['self'] if f['cls'] == 'C' else [])
+        local_names = ['b'] + (['self'] if f['cls'] != 'none' else [])
         for k in range(f['nl']):
             out.append(body + 'x%d = "v%d_%d"' % (k, i, k))
             local_names.append('x%d' % k)
@@ -59,7 +65,7 @@ def build_host(workdir, stack, tag):
             out.append(body + 'return %s()' % callee)
         line_no = len(out)
         out.append('')
-        expected.append({'fn': 'fn%d' % i, 'app': f['app'], 'cls': ('C%d' % i) if f['cls'] == 'C' else None,
+        expected.append({'fn': 'fn%d' % i, 'app': f['app'], 'cls': ('C%d' % i) if f['cls'] != 'none' else None,
                          'locals': sorted(local_names), 'line': line_no})
     paths = {True: os.path.join(app_dir, app_name + '.py'), False: os.path.join(lib_dir, lib_name + '.py')}
     mods = {}
@@ -78,7 +84,7 @@ def build_host(workdir, stack, tag):
     bottom = stack[-1]
     bmod = mods[bottom['app']]
     i = n - 1
-    if bottom['cls'] == 'C':
+    if bottom['cls'] != 'none':
         entry = lambda: getattr(bmod, 'C%d' % i)().__getattribute__('fn%d' % i)()   # noqa: E731
     else:
         entry = getattr(bmod, 'fn%d' % i)
